@@ -721,7 +721,7 @@ def run_bare_case(case):
             if mt != t0:
                 return {"round": -1, "what": "unedited text", "model": mt, "real": t0}
             return None
-        res["pending"].append((req0, cmp0))
+        res["pending"].append((req0, cmp0, None))
     except ZeroDivisionError:
         res["fail"] = {"kind": "exception:zerodiv", "round": -1, "text": None, "values": [str(v) for v in vals0]}
         return res
@@ -745,7 +745,7 @@ def run_bare_case(case):
             if d:
                 d["round"] = ri
             return d
-        res["pending"].append((ob.request, cmpu))
+        res["pending"].append((ob.request, cmpu, ob))
         if ob.error:
             res["fail"] = {"kind": "exception:" + ob.error[4:], "round": ri, "text": None,
                            "values": [str(v) for v in ob.values]}
@@ -763,13 +763,15 @@ def finish_cases(results):
     """send all pending requests to the model, fill res['corr']; -> (requests, answers)"""
     reqs = []
     for r in results:
-        for q, _ in r["pending"]:
+        for q, _, _ in r["pending"]:
             reqs.append(q)
     answers = vlib.model_ask("Shortcut", reqs)
     i = 0
     for r in results:
-        for q, cmp_ in r["pending"]:
+        r["answers"] = []
+        for q, cmp_, _ in r["pending"]:
             d = cmp_(answers[i])
+            r["answers"].append(answers[i])
             i += 1
             if d:
                 r["corr"].append(d)
@@ -1151,7 +1153,7 @@ def run_carrier_case(case):
                         if d:
                             d["carrier"] = ob.carrier
                         return d
-                    res["pending"].append((ob.request, cmpu, ob.carrier))
+                    res["pending"].append((ob.request, cmpu, ob))
             except Exception as e:
                 res["skipped"] = "observation failed " + type(e).__name__
             try:
@@ -1330,12 +1332,8 @@ def analyse_bare(case, res=None, answers=None):
     out = {"kind": None, "codes": [], "cf": None, "unedited": None}
     if res["fail"]:
         if answers is None:
-            answers = vlib.model_ask("Shortcut", [q for q, _ in res["pending"]])
-        obs = [getattr(c, "__defaults__", None) for _, c in res["pending"]]
-        obl = []
-        for _, c in res["pending"][1:]:
-            d = c.__defaults__
-            obl.append(d[0] if d else None)
+            answers = vlib.model_ask("Shortcut", [q for q, _, _ in res["pending"]])
+        obl = [ob for _, _, ob in res["pending"][1:]]
         out["kind"] = res["fail"]["kind"]
         out["codes"] = sorted(codes_of_failure(res["fail"], res["pending"], answers, obl))
         out["unedited"] = res["fail"]["round"] == -1
@@ -1369,8 +1367,9 @@ def analyse_carrier(case, res=None, answers=None):
         if answers is None:
             answers = vlib.model_ask("Shortcut", [q for q, _, _ in res["pending"]])
         codes = set()
-        for (q, c, car), a in zip(res["pending"], answers):
+        for (q, c, ob), a in zip(res["pending"], answers):
             pa = parse_upd_answer(a)
+            car = ob.carrier
             if f["stage"] == "write" and (car == f.get("carrier") or f.get("carrier") is None):
                 codes |= pa["codes"]
                 if pa["error"] == "err:index":
